@@ -14,6 +14,13 @@ fn main() {
     let property = args[1].as_str();
     let code = match property {
         "C01" | "C04" | "C05" | "C06" | "C07" | "C08" | "C09" | "C10" | "C11" | "C14" | "C15" | "C17" | "C18" => mc::engine::run::run_property(property, tier),
+        "C02" => mc::codec::c02::run(tier),
+        "C03" => mc::codec::c03::run(tier),
+        "C16" => mc::codec::c16::run(tier),
+        "C20" => mc::aws::run(tier),
+        "C13" => mc::drivers::run_c13(tier),
+        "C12" => mc::lifecycle::run_c12(tier),
+        "C19" => mc::lifecycle::run_c19(tier),
         _ => { eprintln!("no check for {}", property); 2 }
     };
     std::process::exit(code);
